@@ -44,6 +44,9 @@ type Cmd struct {
 	After    Beh
 	LongDesc string
 	Hidden   bool
+	// Policy, when set, is assigned to the command's ErrorHandling at the start of its own initializer
+	// (sub-commands declared afterwards inherit it)
+	Policy *flag.ErrorHandling
 }
 
 // Path is the full command path (first aliases)
@@ -60,6 +63,9 @@ type App struct {
 	Policy  flag.ErrorHandling
 	Version bool // declares app.Version("V version", "ver-1.2.3")
 	Builtin bool // declare with the built-in Bool/String/Strings types instead of recording custom types
+	// PolicyLate: the policy is assigned to the app after all declarations instead of right after cli.App(): commands
+	// declared before keep what they copied at declaration time (the default, ExitOnError)
+	PolicyLate bool
 	Shared  bool // do not touch the package-level exit function and error stream (concurrent use)
 }
 
@@ -174,13 +180,18 @@ type recs struct {
 // unless the app is Shared) and returns it together with the recorders
 func buildApp(a *App, o *Obs, setEnv *[]string) (*cli.Cli, map[int]*recs) {
 	app := cli.App(a.Root.Aliases[0], "desc")
-	app.ErrorHandling = a.Policy
+	if !a.PolicyLate {
+		app.ErrorHandling = a.Policy
+	}
 	if a.Version {
 		app.Version("V version", "ver-1.2.3")
 	}
 	all := map[int]*recs{}
 	var build func(c *cli.Cmd, t *Cmd)
 	build = func(c *cli.Cmd, t *Cmd) {
+		if t.Policy != nil {
+			c.ErrorHandling = *t.Policy
+		}
 		rs := &recs{o: map[*OptDecl]*Rec{}, a: map[*ArgDecl]*Rec{}, sbo: map[*OptDecl]*bool{}, sba: map[*ArgDecl]*bool{}, bo: map[*OptDecl]func() []string{}, ba: map[*ArgDecl]func() []string{}}
 		all[t.ID] = rs
 		for i, od := range t.Prog.Opts {
@@ -298,6 +309,9 @@ func buildApp(a *App, o *Obs, setEnv *[]string) (*cli.Cli, map[int]*recs) {
 		}
 	}
 	build(app.Cmd, a.Root)
+	if a.PolicyLate {
+		app.ErrorHandling = a.Policy
+	}
 	return app, all
 }
 
@@ -622,4 +636,19 @@ func (b *Built) Run(argv []string) *Obs {
 	o.Stderr = buf.String()
 	cp := *o
 	return &cp
+}
+
+// PolicyAt is the error policy the library must follow for an outcome decided by command t: its own override, else
+// what it inherited when it was declared
+func (a *App) PolicyAt(t *Cmd) flag.ErrorHandling {
+	if t.Policy != nil {
+		return *t.Policy
+	}
+	if t.Parent == nil {
+		return a.Policy
+	}
+	if t.Parent.Parent == nil && t.Parent.Policy == nil && a.PolicyLate {
+		return flag.ExitOnError // copied from the root before the late assignment
+	}
+	return a.PolicyAt(t.Parent)
 }
